@@ -214,7 +214,7 @@ impl RangeList {
         while let Some(e) = self.0.get(b).cloned() {
             {
                 let s = self.0.get_mut(a).expect("RangeList::compact");
-                if s.end() + 1 >= e.start() {
+                if s.end().saturating_add(1) >= e.start() {
                     s.1 = max(s.end(), e.end());
                     b += 1;
                     continue;
